@@ -47,6 +47,13 @@ def raise_(ip: Any, cls: type, *args: Any) -> PyRaise:
 # ======================================================================================
 
 
+class MapView:
+    """``m.items()`` / ``m.keys()`` / ``m.values()`` of a symbolic map (a view of the map as it was at the call)."""
+
+    def __init__(self, m: Any, what: str) -> None:
+        self.m, self.what = m, what
+
+
 class SymIter:
     """An iterable of symbolic length: ``length`` (z3 Int) and ``at(k)`` for 0 <= k < length."""
 
@@ -72,6 +79,8 @@ def iteration(ip: Any, it: Any) -> Any:
         return (snap.length, snap.getf)
     if isinstance(it, SymIter):
         return (it.length, it.at)
+    if isinstance(it, (SMap, MapView)):
+        raise Unsupported("iteration over a symbolic map (no order): only the key-preserving dict comprehension over .items()/.keys() is modelled")
     if isinstance(it, SODict):
         snap = it.items.snapshot()
         return (snap.length, lambda k: snap.getf(k)[0])
@@ -199,6 +208,17 @@ def binop(ip: Any, op: ast.operator, a: Any, b: Any) -> Any:
         for _ in range(max(b, 0)):
             t = z3.Concat(t, a.t)
         return type(a)(t)
+    if isinstance(op, ast.Mult) and isinstance(a, (SStr, SBytes, str, bytes)) and isinstance(b, SInt):
+        # s * n for a symbolic count: uninterpreted repeat(s, n) with its length; for a concrete
+        # one-character s the result is pinned completely (a run of that character of length max(n, 0))
+        st = _tt(a)
+        r = STR_REPEAT(st, b.t)
+        S.assume(z3.Length(r) == z3.Length(st) * z3.If(b.t > 0, b.t, z3.IntVal(0)))
+        if isinstance(a, (str, bytes)) and len(a) == 1:
+            S.assume(z3.InRe(r, z3.Star(z3.Re(st))))
+        else:
+            S.note("s * n with symbolic n: only the length of the result is modelled")
+        return (SBytes if isinstance(a, (SBytes, bytes)) else SStr)(r)
     if isinstance(op, ast.Add) and isinstance(a, (list, tuple)) and type(a) is type(b):
         return a + b
     if isinstance(op, ast.Add) and isinstance(a, (list, SList)) and isinstance(b, (list, SList)):
@@ -985,6 +1005,9 @@ def b_isinstance(ip: Any, v: Any, cls: Any) -> Any:
         if h is not None:
             return h(ip.S, v, cls)
     if isinstance(v, SOpaque):
+        h = ip.S.handlers.get(f"{v.kind}.__isinstance__")  # run-time type of an opaque value, given by contract
+        if h is not None:
+            return h(ip.S, v, cls)
         raise Unsupported(f"isinstance() of opaque {v.kind}")
     try:
         return issubclass(py_type(ip, v), cls)
@@ -1160,7 +1183,8 @@ def b_set(ip: Any, xs: Any = ()) -> Any:
 
 
 def b_frozenset(ip: Any, xs: Any = ()) -> Any:
-    return frozenset(b_set(ip, xs))
+    r = b_set(ip, xs)
+    return r if isinstance(r, SSet) else frozenset(r)  # a symbolic set is immutable already (membership predicate)
 
 
 def b_sorted(ip: Any, xs: Any, **kw: Any) -> Any:
@@ -1184,6 +1208,9 @@ def b_sorted(ip: Any, xs: Any, **kw: Any) -> Any:
 def b_reversed(ip: Any, xs: Any) -> Any:
     seq = iteration(ip, xs)
     if not isinstance(seq, list):
+        if isinstance(xs, SList):  # a sequence: element k of the reversed view is element len-1-k
+            n, at = seq
+            return SymIter(n, lambda k: at(n - 1 - k))
         raise Unsupported("reversed() of a symbolic-length iterable")
     return list(reversed(seq))
 
@@ -1387,6 +1414,8 @@ def havoc_object(ip: Any, obj: Any, dotted: str, hints: dict[str, Any]) -> None:
     if isinstance(obj, SObj):
         return
     if isinstance(obj, (list, dict, set)):
+        if dotted in hints:
+            return  # the variable was just re-bound to a fresh value of the contract's loop_havoc shape
         raise Unsupported(f"loop mutates concrete container {dotted!r} across iterations; give it a symbolic view (SList/SMap) or a loop_havoc hint")
 
 
@@ -1429,6 +1458,38 @@ def symbolic_comprehension(ip: Any, e: Any, frame: Any) -> Any:
     return SList(V.shape_of(val), lambda j: map_terms(val, lambda t: z3.substitute(t, (k, j))), length)
 
 
+def symbolic_dict_comprehension(ip: Any, e: Any, frame: Any) -> Any:
+    """``{k: f(k, v) for k, v in m.items()}`` / ``{k: f(k) for k in m.keys()}`` over a symbolic map ``m`` held in a
+    plain local, without filters, with the key passed through unchanged and a *pure* value expression: the result
+    has the same key set and size, and the value at every key is the expression evaluated at that key (evaluated
+    once on a generic key, read pointwise by substitution).  Anything else: ``None`` (the caller's generic path)."""
+    if len(e.generators) != 1 or e.generators[0].ifs or e.generators[0].is_async:
+        return None
+    g = e.generators[0]
+    c = g.iter
+    if not (isinstance(c, ast.Call) and not c.args and not c.keywords and isinstance(c.func, ast.Attribute) and c.func.attr in ("items", "keys") and isinstance(c.func.value, ast.Name)):
+        return None
+    try:
+        recv = frame.lookup(c.func.value.id)
+    except PyRaise:
+        return None
+    if not isinstance(recv, SMap):
+        return None
+    S = ip.S
+    m = recv.snapshot()
+    kv = m.key_shape.fresh("k_comp")
+    f = ip.comp_frame(frame)
+    ip.assign(g.target, (kv, m.val(kv)) if c.func.attr == "items" else kv, f)
+    before = len(S.decisions)
+    kk = ip.eval(e.key, f)
+    vv = ip.eval(e.value, f)
+    if len(S.decisions) != before:
+        raise Unsupported("dict comprehension over a symbolic map whose key/value expression branches")
+    if not (isinstance(kk, Sym) and type(kk) is type(kv) and kk.t.eq(kv.t)):
+        raise Unsupported("dict comprehension over a symbolic map must pass the key through unchanged")
+    return SMap(m.key_shape, V.shape_of(vv), m.has_f, lambda x: map_terms(vv, lambda t: z3.substitute(t, (kv.t, x))), m.size, m.rank_f, m.clock)
+
+
 # ======================================================================================
 # methods on symbolic values
 # ======================================================================================
@@ -1437,10 +1498,16 @@ WS_CHARS = " \t\n\r\x0b\x0c"
 PY_LOWER = z3.Function("py_lower", z3.StringSort(), z3.StringSort())
 PY_UPPER = z3.Function("py_upper", z3.StringSort(), z3.StringSort())
 PY_STRIP = z3.Function("py_strip", z3.StringSort(), z3.StringSort())
+STR_BEFORE_FIRST = z3.Function("py_before_first", z3.StringSort(), z3.StringSort(), z3.StringSort())  # s.split(sep, 1)[0] when sep in s
+STR_AFTER_FIRST = z3.Function("py_after_first", z3.StringSort(), z3.StringSort(), z3.StringSort())  # s.split(sep, 1)[1] when sep in s
 UTF8_ENC = z3.Function("utf8_encode", z3.StringSort(), z3.StringSort())
 UTF8_DEC = z3.Function("utf8_decode", z3.StringSort(), z3.StringSort())
 UTF8_OK = z3.Function("utf8_valid", z3.StringSort(), z3.BoolSort())
 ASCII_RE = z3.Star(z3.Range(z3.StringVal("\x00"), z3.StringVal("\x7f")))
+STR_REPEAT = z3.Function("str_repeat", z3.StringSort(), z3.IntSort(), z3.StringSort())
+BYTES_HEX = z3.Function("bytes_hex", z3.StringSort(), z3.StringSort())
+BYTES_UNHEX = z3.Function("bytes_unhex", z3.StringSort(), z3.StringSort())
+HEX_OK = z3.Function("hex_valid", z3.StringSort(), z3.BoolSort())
 
 
 def _tt(v: Any) -> Any:
@@ -1489,6 +1556,9 @@ def decode_utf8(ip: Any, b: Any, errors: str = "strict") -> SStr:
         lenient = z3.Function(f"utf8_decode_{errors}", z3.StringSort(), z3.StringSort())
         r = lenient(t)
         S.assume(z3.Implies(z3.InRe(t, ASCII_RE), r == t))
+        S.assume(z3.Implies(UTF8_OK(t), r == UTF8_DEC(t)))  # the error handler only matters on invalid input
+        if errors == "replace":  # every offending byte becomes U+FFFD, so the result is ASCII exactly when the input is
+            S.assume(z3.InRe(r, ASCII_RE) == z3.InRe(t, ASCII_RE))
         return SStr(r)
     r = UTF8_DEC(t)
     S.assume(z3.Implies(z3.InRe(t, ASCII_RE), r == t))
@@ -1562,7 +1632,16 @@ def str_method(ip: Any, obj: Any, name: str, args: list[Any], kwargs: dict[str, 
             if errors == "strict" and not S.fork(SBool(z3.InRe(t, ASCII_RE))):
                 raise ip.mkraise(SExc(UnicodeDecodeError, ("ascii", obj, 0, 1, "ordinal not in range(128)")))
             if errors != "strict":
-                raise Unsupported("ascii decode with error handler")
+                # lenient handlers (replace/ignore/...): ASCII bytes decode to themselves, any other input to
+                # *some* string; "replace" substitutes exactly one character per offending byte
+                if not isinstance(errors, str):
+                    raise Unsupported("ascii decode with a symbolic error handler")
+                lenient = z3.Function(f"ascii_decode_{errors}", z3.StringSort(), z3.StringSort())
+                r = lenient(t)
+                S.assume(z3.Implies(z3.InRe(t, ASCII_RE), r == t))
+                if errors == "replace":
+                    S.assume(z3.Length(r) == z3.Length(t))
+                return SStr(r)
             return SStr(t)
         raise Unsupported(f"decode({enc})")
     if name == "find" or name == "index" or name == "rfind":
@@ -1616,10 +1695,31 @@ def str_method(ip: Any, obj: Any, name: str, args: list[Any], kwargs: dict[str, 
             return W(z3.StringVal(""))
         return W(z3.Concat(*parts)) if len(parts) > 1 else W(parts[0])
     if name == "hex" and isb:
-        raise Unsupported("bytes.hex")
+        if args or kwargs:
+            raise Unsupported("bytes.hex with a separator")
+        # bytes.hex(): uninterpreted injective function (bytes.fromhex inverts it), two characters per byte
+        r = BYTES_HEX(t)
+        S.assume(z3.Length(r) == 2 * z3.Length(t))
+        S.assume(BYTES_UNHEX(r) == t)
+        S.assume(HEX_OK(r))
+        return SStr(r)
     if name == "split" and len(args) == 1 and not kwargs and isinstance(args[0], (str, bytes)) and len(args[0]) == 1:
         _same_kind(ip, obj, args[0])
         return split_single_char(ip, t, args[0], W, isb)
+    if name == "split" and len(args) == 2 and not kwargs and isinstance(args[0], (str, bytes)) and len(args[0]) >= 1 and isinstance(args[1], int) and not isinstance(args[1], bool) and args[1] == 1:
+        # s.split(sep, 1): cut at the first occurrence of sep (two parts), or [s] when sep does not occur
+        # The two parts are the (well-defined) functions "text before / after the first occurrence", characterised by
+        # t == before + sep + after with no occurrence of sep starting inside `before` (word equations, which the
+        # sequence solvers handle far better than indexof/substr).
+        sep_t = arg_t(0)
+        if S.fork(SBool(z3.Contains(t, sep_t))):
+            head, tail = STR_BEFORE_FIRST(t, sep_t), STR_AFTER_FIRST(t, sep_t)
+            S.assume(t == z3.Concat(head, sep_t, tail))
+            almost = args[0][:-1]
+            almost_t = z3.StringVal(V.bytes_to_smt(almost) if isinstance(almost, bytes) else almost)
+            S.assume(z3.Not(z3.Contains(z3.Concat(head, almost_t) if almost else head, sep_t)))
+            return [W(head), W(tail)]
+        return [obj if isinstance(obj, W) else W(t)]
     if name in ("split", "rsplit", "partition", "rpartition", "splitlines", "lstrip", "rstrip", "removeprefix", "removesuffix", "format", "title", "casefold", "count", "zfill", "ljust", "rjust", "strip"):
         if name == "removeprefix":
             p = arg_t(0)
@@ -1648,11 +1748,11 @@ def split_single_char(ip: Any, t: Any, sep: Any, W: Any, isb: bool) -> SList:
     ``SPLIT_EXACT_PARTS`` and on the first ``SPLIT_EXACT_PARTS`` parts (later parts: unconstrained).
 
     CPython: the result has one more element than there are occurrences of ``sep``; the elements are
-    the maximal sep-free pieces in order, so ``sep.join(result) == t``.  Encoding: witnesses ``h_k``
-    (pieces) and ``r_k`` (what follows piece k), which exist and are unique for every ``t``:
-    ``t = h_0 r_0``; ``r_k = ""`` or ``r_k = sep h_{k+1} r_{k+1}``; every ``h_k`` is sep-free; and the
-    count ``n`` is tied both to the chain (``n = k+1`` iff ``r_k`` is the first empty remainder) and to
-    the regular characterisation ``n = k`` iff ``t`` in ``(N sep){k-1} N`` with ``N`` = sep-free strings."""
+    the maximal sep-free pieces in order, so ``sep.join(result) == t``.  Encoding, with ``N`` = the
+    sep-free strings: the count is regular, ``n = k  <=>  t in (N sep){k-1} N``; and for ``n = k`` the
+    pieces are the witnesses ``h_0..h_{k-1}`` of ``t = h_0 sep h_1 .. sep h_{k-1}`` with every ``h_i`` in
+    ``N`` (such witnesses exist and are unique for every ``t``, so assuming them never constrains ``t``).
+    The facts are also recorded by name (``split_facts``) so that a contract can cite them one by one."""
     from . import regex
 
     S = ip.S
@@ -1672,29 +1772,28 @@ def split_single_char(ip: Any, t: Any, sep: Any, W: Any, isb: bool) -> SList:
     N = z3.Star(nosep)
     anyc = z3.Star(regex._range(0, limit))
     sep_re = z3.Re(sep_t)
-    E = z3.StringVal("")
     h = [z3.String(S.fresh_name(f"split_part{k}")) for k in range(K)]
-    r = [z3.String(S.fresh_name(f"split_rest{k}")) for k in range(K)]
+    tail = z3.String(S.fresh_name("split_tail"))
     n = z3.Int(S.fresh_name("split_n"))
-    S.assume(t == z3.Concat(h[0], r[0]))
-    for k in range(K):
-        S.assume(z3.InRe(h[k], N))
-        if k < K - 1:
-            S.assume(z3.Or(r[k] == E, r[k] == z3.Concat(sep_t, h[k + 1], r[k + 1])))
-            S.assume(z3.Implies(r[k] == E, z3.And(h[k + 1] == E, r[k + 1] == E)))
-        else:
-            S.assume(z3.Or(r[k] == E, z3.PrefixOf(sep_t, r[k])))
+    facts: dict[str, Any] = {"count": {}, "parts": {}, "n": n, "h": h}
     S.assume(n >= 1)
 
-    def exactly(k: int) -> Any:  # strings with exactly k parts
-        return z3.Concat(*([N, sep_re] * (k - 1) + [N])) if k > 1 else N
+    def joined(k: int, extra: list[Any]) -> Any:
+        pieces: list[Any] = []
+        for i in range(k):
+            pieces += [sep_t, h[i]] if i else [h[i]]
+        pieces += extra
+        return z3.Concat(*pieces) if len(pieces) > 1 else pieces[0]
 
     for k in range(1, K + 1):
-        first_empty = z3.And(r[k - 1] == E, r[k - 2] != E) if k >= 2 else r[0] == E
-        S.assume((n == k) == first_empty)
-        S.assume((n == k) == z3.InRe(t, exactly(k)))
-    S.assume((n > K) == (r[K - 1] != E))
-    S.assume((n > K) == z3.InRe(t, z3.Concat(*([N, sep_re] * K + [anyc]))))
+        lang = z3.Concat(*([N, sep_re] * (k - 1) + [N])) if k > 1 else N
+        facts["count"][k] = (n == k) == z3.InRe(t, lang)
+        facts["parts"][k] = z3.Implies(n == k, z3.And(t == joined(k, []), *[z3.InRe(h[i], N) for i in range(k)]))
+    facts["count"]["more"] = (n > K) == z3.InRe(t, z3.Concat(*([N, sep_re] * K + [anyc])))
+    facts["parts"]["more"] = z3.Implies(n > K, z3.And(t == joined(K, [sep_t, tail]), *[z3.InRe(h[i], N) for i in range(K)]))
+    for grp in ("count", "parts"):
+        for f in facts[grp].values():
+            S.assume(f)
     rest = z3.Function(S.fresh_name("split_later_part"), z3.IntSort(), z3.StringSort())
 
     def getf(j: Any) -> Any:
@@ -1708,8 +1807,14 @@ def split_single_char(ip: Any, t: Any, sep: Any, W: Any, isb: bool) -> SList:
         return W(v)
 
     S.note(f"str.split(<1 char>) modelled exactly for the part count up to {K} and the first {K} parts; later parts unconstrained")
-    memo[mk] = (getf, n, t)  # t kept alive so its AST id is not reused
+    memo[mk] = (getf, n, t, facts)  # t kept alive so its AST id is not reused
     return SList(V.BytesShape if isb else V.StrShape, getf, n)
+
+
+def split_facts(S: Any, t: Any, sep: str) -> dict[str, Any]:
+    """The named facts assumed for ``t.split(sep)`` on this path (after the split was modelled)."""
+    c = sep[0] if isinstance(sep, bytes) else ord(sep)
+    return S.__dict__.get("_split_memo", {})[(t.get_id(), c, isinstance(sep, bytes))][3]
 
 
 def list_method(ip: Any, obj: SList, name: str, args: list[Any], kwargs: dict[str, Any]) -> Any:
@@ -1748,6 +1853,8 @@ def list_method(ip: Any, obj: SList, name: str, args: list[Any], kwargs: dict[st
         obj.length = n + other.length
         obj.cat = z3.Concat(obj.cat, other.cat) if obj.cat is not None and other.cat is not None else None
         return None
+    if not hasattr(list, name):
+        raise raise_(ip, AttributeError, f"'list' object has no attribute {name!r}")
     raise Unsupported(f"list.{name} on a symbolic-length list")
 
 
@@ -1782,6 +1889,8 @@ def map_method(ip: Any, obj: SMap, name: str, args: list[Any], kwargs: dict[str,
         return None
     if name == "copy":
         return obj.snapshot()
+    if name in ("items", "keys", "values") and not args and not kwargs:
+        return MapView(obj.snapshot(), name)
     if name == "popitem":
         last = kwargs.get("last", args[0] if args else True)
         if not S.fork(SBool(obj.size > 0)):
@@ -1800,6 +1909,8 @@ def map_method(ip: Any, obj: SMap, name: str, args: list[Any], kwargs: dict[str,
         v = obj.val(k)
         obj.delete(k)
         return (k, v)
+    if not hasattr(dict, name):
+        raise raise_(ip, AttributeError, f"'dict' object has no attribute {name!r}")
     raise Unsupported(f"dict.{name} on a symbolic map")
 
 
@@ -2248,3 +2359,42 @@ def _m_dataclasses_replace(ip: Any, obj: Any, /, **changes: Any) -> Any:
 import dataclasses as _dc_mod
 
 EXTRA_MODELS[_dc_mod.replace] = _m_dataclasses_replace
+
+
+def _m_bytes_fromhex(ip: Any, s: Any) -> Any:
+    """``bytes.fromhex(s)``: bytes or ValueError; inverts ``bytes.hex()`` (``fromhex(x.hex()) == x``)."""
+    if not V.contains_sym(s):
+        return ip.native_call(bytes.fromhex, [s], {})
+    if not isinstance(s, SStr):
+        raise raise_(ip, TypeError, "fromhex() argument must be str")
+    if not ip.S.fork(SBool(HEX_OK(s.t))):
+        raise raise_(ip, ValueError, "non-hexadecimal number found in fromhex() arg")
+    r = BYTES_UNHEX(s.t)
+    ip.S.assume(core_is_bytes(r))
+    return SBytes(r)
+
+
+EXTRA_MODELS[bytes.fromhex] = _m_bytes_fromhex
+
+
+def _m_math_pred(kind: str) -> Any:
+    """``math.isfinite / isnan / isinf`` on IEEE binary64 values and ints."""
+
+    def f(ip: Any, x: Any) -> Any:
+        import math as _math
+
+        if isinstance(x, SFloat):
+            nan, inf = z3.fpIsNaN(x.t), z3.fpIsInf(x.t)
+            return SBool({"isfinite": z3.Not(z3.Or(nan, inf)), "isnan": nan, "isinf": inf}[kind])
+        if isinstance(x, (SInt, SBool)):
+            return kind == "isfinite"
+        if V.contains_sym(x):
+            raise raise_(ip, TypeError, "must be real number")
+        return ip.native_call(getattr(_math, kind), [x], {})
+
+    return f
+
+
+import math as _math_mod
+
+EXTRA_MODELS.update({_math_mod.isfinite: _m_math_pred("isfinite"), _math_mod.isnan: _m_math_pred("isnan"), _math_mod.isinf: _m_math_pred("isinf")})
